@@ -37,7 +37,8 @@ def _sig(entry, predicate, **kw):
 # constructor rows
 
 
-CTOR_CALL = {0: "Dist(**values, **fixed)", 1: "Dist(**fixed, **values)", 2: "Dist(*values, **fixed)"}
+CTOR_CALL = {0: "Dist(**values, **fixed)", 1: "Dist(**fixed, **values)", 2: "Dist(*values, **fixed)",
+             3: "Dist(**values, **fixed, f_<free>=None)"}
 
 
 def check_ctor(case):
@@ -53,6 +54,8 @@ def check_ctor(case):
             inst = cls(**vals, **fx)
         elif order == 1:
             inst = cls(**fx, **vals)
+        elif order == 3:
+            inst = cls(**vals, **fx, **{"f_" + params[q]: None for q in range(len(params)) if q not in F})
         else:
             inst = cls(*[arg[p] for p in given], **fx)
     except Exception as e:  # noqa: BLE001
@@ -88,6 +91,30 @@ def run_ctor_rows(ck, rng, n_val):
             ck.count("ctor:" + name)
             for sig, detail in bad:
                 ck.fail(sig, case, detail)
+
+
+def observe_unknown_keywords(ck):
+    """Constructor keywords that name no parameter of the family (`nosuch=`, `f_nosuch=`, both together with a real
+    fixed parameter).  C11 speaks about the family's own parameters only, so there is NO verdict on the outcome class;
+    the path is executed and the outcome counted (evidence: input_distribution `observed_no_verdict:...`).  What C11
+    does state is checked: a refused construction must not have been required, an accepted one must still honour the
+    real fixed parameter."""
+    for name, cls, params in TABLES["families"]:
+        farg = sentinel.random_theta(np.random.default_rng(7), name, wide=False)
+        p0 = params[0]
+        for kws in ({"nosuch": 1.5}, {"f_nosuch": 1.5}, {"f_" + p0: farg[p0], "f_nosuch": 1.5}):
+            try:
+                inst = cls(**kws)
+                out = "accepted"
+            except Exception as e:  # noqa: BLE001
+                inst, out = None, type(e).__name__
+            ck.count("observed_no_verdict:ctor_unknown_keyword:" + out)
+            if inst is not None and "f_" + p0 in kws:
+                case = {"kind": "ctor_unknown", "family": name, "kwargs": {k: float(v) for k, v in kws.items()}}
+                ck.case(case, nontrivial=True, sample=False)
+                if core.f2b(inst.parameters[p0]) != core.f2b(farg[p0]):
+                    ck.fail(_sig(name + ".__init__", "fixed_wins", call="Dist(f_<p>=v, f_<unknown>=w)"), case,
+                            f"accepted, but parameters[{p0!r}] = {inst.parameters[p0]!r}, fixed {farg[p0]!r}")
 
 
 # ---------------------------------------------------------------------------
@@ -615,6 +642,7 @@ def main(ck):
             ck.fail(sig, case, detail)
     # (1) tables, concretely
     run_ctor_rows(ck, rng, 3 if thorough else 1)
+    observe_unknown_keywords(ck)
     c05.run_rows(ck, TABLES["get"], rng, 2 if thorough else 1, only_fixed=True)
     for row in TABLES["cond"]:
         name = row["fam"]
